@@ -29,7 +29,9 @@ m = {
               "baseline_off_cmd": "cd /repo && go test -vet=off -count=1 ./...",
               "source_commits": T.HOOK_COMMITS, "add_only": True},
     "engines": [
-        {"name": "lean-rt", "path": "/verif/lean", "serves_properties": sorted(PROPS),
+        {"name": "lean-mid", "path": "/verif/lean", "serves_properties": [p for p in sorted(PROPS) if T.TEXTS[p].get("engine") == "lean-mid"],
+         "kind_free_text": "Lean 4 model of the grammar analysis (Model/Mid.lean: nullable flags, first graph, SCCs, leader) + independent specification, tied to ast/ and builder/ by harness/cmd/pvmid"},
+        {"name": "lean-rt", "path": "/verif/lean", "serves_properties": [p for p in sorted(PROPS) if T.TEXTS[p].get("engine", "lean-rt") == "lean-rt"],
          "kind_free_text": "Lean 4 model of the generated-parser runtime (Model/Runtime.lean) with kernel-checked theorems (Properties/*.lean), tied to the code by the H1 correspondence stream (harness/: real pigeon-generated parsers for all 16 template variants vs the compiled model driver on generated cases)"},
     ],
     "checks": checks,
